@@ -53,6 +53,7 @@ func checkC12(c *Ctx) {
 			c.c07Batch(b)
 		}
 	}, func(o *coreObl) (string, bool) { return "R12.1", isLenObligation(o) })
+	c.configOverwrites("R12.1")
 	c.configWriters("R12.1", "HeapInUseSoftLimit", "SysMemSoftLimit", "CountSoftLimit", "EvictFraction", "EvictionStrategy", "EvictionNeeded")
 }
 
